@@ -4,6 +4,7 @@ import io
 import logging
 import os
 import shutil
+import tempfile
 import typing
 
 from hpotk.ontology import MinimalOntology, Ontology
@@ -292,8 +293,23 @@ class OntologyStore:
             os.makedirs(fdir_ontology, exist_ok=True)
             with self._remote_ontology_service.fetch_ontology(
                 ontology_type, release
-            ) as response, open(fpath_ontology, "wb") as fh_ontology:
-                fh_ontology.write(response.read())
+            ) as response:
+                # Download into a temporary file located in the same folder and move the file to the final location
+                # only when the download is complete. This way, an incomplete file is never stored
+                # at `fpath_ontology`, no matter if the download fails or if the process is interrupted.
+                fd, fpath_tmp = tempfile.mkstemp(
+                    dir=fdir_ontology, prefix=f"{os.path.basename(fpath_ontology)}.", suffix=".tmp",
+                )
+                try:
+                    with os.fdopen(fd, "wb") as fh_ontology:
+                        fh_ontology.write(response.read())
+                    os.replace(fpath_tmp, fpath_ontology)
+                except BaseException:
+                    try:
+                        os.remove(fpath_tmp)
+                    except OSError:
+                        pass
+                    raise
 
             self._logger.debug("Stored the ontology at %s", fpath_ontology)
 
